@@ -241,3 +241,215 @@ def alloc_replay(nm, kind):
     rep = any(("panic" in v or "abort" in v) for v in nat.values())
     return {"message": f"{nm}: allocates a buffer of a size declared inside the input ({'2^32-1' if opk == 'script' else '2^40'}) before checking that the input holds that many bytes", "request": {"tx": {"version": 1, "locktime": 0, "inputs": [], "outputs": []}, "ops": [op]},
             "op_index": 0, "expected": "Err without allocating", "native": nat, "reproduced": rep}
+
+
+def point_models():
+    """content-aware models of the SEC1 / k256 point API over uninterpreted predicates of the key bytes -> (models, FORMAT_OK, ON_CURVE, KIND, KINDS)"""
+    import re
+    from .models import uf, ok, err, some, NONE, deref
+    from .executor import PathPanic
+    FORMAT_OK = lambda s: uf("POINT_ENCODING_VALID", SEQ, z3.BoolSort())(s)
+    ON_CURVE = lambda s: uf("POINT_ON_CURVE", SEQ, z3.BoolSort())(s)
+    KIND = lambda s: uf("POINT_KIND", SEQ, z3.BitVecSort(8))(s)
+    KINDS = [("Identity", 0), ("Compact", 1), ("Compressed", 2), ("Uncompressed", 3)]
+
+    def m_from_bytes(ex, a, callee, canon):
+        s = ex.bytes_of(a[0])
+        if ex.decide(FORMAT_OK(s)):
+            return ok(Opaque("EncodedPoint", Bytes(s)))
+        return err("sec1::Error")
+
+    def m_from_sec1(ex, a, callee, canon):
+        s = ex.bytes_of(a[0])
+        if ex.decide(z3.And(FORMAT_OK(s), ON_CURVE(s))):
+            return ok(Opaque("K256PublicKey", Bytes(s)))
+        return err("elliptic_curve::Error")
+
+    def m_pk_from_encoded_point(ex, a, callee, canon):
+        # k256::PublicKey::from_encoded_point -> CtOption
+        p = deref(a[0])
+        return Opaque("CtOption", (ON_CURVE(p.payload.s), Opaque("K256PublicKey", p.payload)))
+
+    def m_coordinates(ex, a, callee, canon):
+        p = deref(a[0])
+        s = p.payload.s
+        for nm, d in KINDS:
+            if ex.decide(KIND(s) == d):
+                if nm == "Compressed":
+                    return Enum("Coordinates", nm, d, [Ptr([Opaque("FieldBytes", s)], 0), Bool(ex.fresh("y_is_odd", z3.BoolSort()))])
+                if nm == "Uncompressed":
+                    return Enum("Coordinates", nm, d, [Ptr([Opaque("FieldBytes", s)], 0), Ptr([Opaque("FieldBytes", s)], 0)])
+                if nm == "Compact":
+                    return Enum("Coordinates", nm, d, [Ptr([Opaque("FieldBytes", s)], 0)])
+                return Enum("Coordinates", nm, d, [])
+        raise PathPanic("unreachable point kind")
+
+    def m_decompress(ex, a, callee, canon):
+        x = deref(a[0])
+        return Opaque("CtOption", (ON_CURVE(x.payload), Opaque("AffinePoint", None)))
+
+    def m_affine_from_point(ex, a, callee, canon):
+        p = deref(a[0])
+        s = p.payload.s
+        return Opaque("CtOption", (z3.Or(ON_CURVE(s), KIND(s) == 0), Opaque("AffinePoint", p.payload)))
+
+    def m_ct_map(ex, a, callee, canon):
+        c = deref(a[0])
+        return Opaque("CtOption", (c.payload[0], Opaque("EncodedPoint", Bytes(seq_of([ex.fresh("pt", z3.BitVecSort(8)) for _ in range(65)])))))
+
+    def m_ct_into_option(ex, a, callee, canon):
+        c = deref(a[0])
+        if ex.decide(c.payload[0]):
+            return some(c.payload[1])
+        return NONE()
+
+    def m_ct_unwrap(ex, a, callee, canon):
+        c = deref(a[0])
+        if ex.decide(c.payload[0]):
+            return c.payload[1]
+        raise PathPanic("CtOption::unwrap on a value that is not there (assertion left == right)")
+
+    def m_ct_is_some(ex, a, callee, canon):
+        c = deref(a[0])
+        want = canon.endswith("is_some")
+        return Opaque("Choice", c.payload[0] if want else z3.Not(c.payload[0]))
+
+    def m_choice_into_bool(ex, a, callee, canon):
+        c = deref(a[0])
+        return Bool(c.payload) if isinstance(c, Opaque) and c.tag == "Choice" else c
+
+    def m_choice_from(ex, a, callee, canon):
+        return Opaque("Choice", None)
+
+    def m_point_compress(ex, a, callee, canon):
+        p = deref(a[0])
+        return Opaque("EncodedPoint", Bytes(seq_of([ex.fresh("cpt", z3.BitVecSort(8)) for _ in range(33)])))
+
+    def m_point_is_compressed(ex, a, callee, canon):
+        return Bool(ex.fresh("is_compressed", z3.BoolSort()))
+
+    def m_point_as_bytes(ex, a, callee, canon):
+        return Ptr([deref(a[0]).payload], 0)
+
+    def m_vk_from_point(ex, a, callee, canon):
+        p = deref(a[0])
+        if ex.decide(ON_CURVE(p.payload.s)):
+            return ok(Opaque("VerifyingKey", p.payload))
+        return err("ecdsa::Error")
+
+    def m_to_string(ex, a, callee, canon):
+        return Opaque("String")
+
+    R = re.compile
+    PK = [(R(r"(^|::)EncodedPoint::from_bytes$"), m_from_bytes), (R(r"(^|::)PublicKey::from_sec1_bytes$"), m_from_sec1), (R(r"(^|::)EncodedPoint::coordinates$"), m_coordinates),
+          (R(r"DecompressPoint<.*>>::decompress$"), m_decompress), (R(r"^<(\w+::)*AffinePoint as (\w+::)*FromEncodedPoint<.*>>::from_encoded_point$"), m_affine_from_point),
+          (R(r"^<(\w+::)*PublicKey<.*> as (\w+::)*FromEncodedPoint<.*>>::from_encoded_point$|(^|::)PublicKey::from_encoded_point$(?<!public_key::PublicKey::from_encoded_point)"), m_pk_from_encoded_point),
+          (R(r"^CtOption::map$"), m_ct_map), (R(r"^<CtOption<.*> as Into<(std::option::)?Option<.*>>>::into$|^<(std::option::)?Option<.*> as From<CtOption<.*>>>::from$"), m_ct_into_option),
+          (R(r"^CtOption::unwrap$"), m_ct_unwrap), (R(r"^CtOption::is_some$|^CtOption::is_none$"), m_ct_is_some), (R(r"^<bool as From<(\w+::)*Choice>>::from$|^<(\w+::)*Choice as Into<bool>>::into$"), m_choice_into_bool),
+          (R(r"^<(\w+::)*Choice as From<u8>>::from$"), m_choice_from), (R(r"(^|::)EncodedPoint::compress$"), m_point_compress), (R(r"(^|::)EncodedPoint::is_compressed$"), m_point_is_compressed),
+          (R(r"(^|::)EncodedPoint::as_bytes$"), m_point_as_bytes), (R(r"(^|::)VerifyingKey::from_encoded_point$"), m_vk_from_point), (R(r"^<.* as ToString>::to_string$"), m_to_string)]
+    return PK, FORMAT_OK, ON_CURVE, KIND, KINDS
+
+
+# ----------------------------------------------------------------------------- C09: a decoded public key never makes a later operation panic
+def q_pubkey_use(env, name=None):
+    """PublicKey::from_bytes_impl(any bytes) followed by each public operation on the accepted key: no panic path.
+    Point-encoding facts are uninterpreted predicates of the bytes: FORMAT_OK (SEC1 tag/length), ON_CURVE (a non-identity curve point),
+    KIND (identity / compact / compressed / uncompressed); stated facts: a key whose bytes are ON_CURVE is compressed or uncompressed."""
+    import re
+    from .models import uf, ok, err, some, NONE, deref
+    from .models_hash import HMODELS, _call
+    from .models_sign import SMODELS
+    from .executor import PathPanic
+    qr = QResult(name or "pubkey_use_total")
+    P = env.P
+    PK, FORMAT_OK, ON_CURVE, KIND, KINDS = point_models()
+    smod = [m for m in SMODELS if m[1].__name__ not in ("m_point_from_bytes", "m_vk_from_point", "m_affine_from_point", "m_ctoption_unwrap", "m_from_sec1")]
+    base = [m for m in MODELS if not m[1].__name__.startswith(("m_sha256", "m_sha256d", "m_hash160", "m_sha512", "m_ripemd160", "m_sha1"))]
+    f_from = env.fn("public_key::PublicKey::from_bytes_impl")
+    S = P.structs
+    sig = Struct("Signature", [None] * len(S["Signature"]))
+    sig.f[S["Signature"].index("sig")] = Opaque("EcdsaSig", z3.BitVec("signature", 768))
+    sig.f[S["Signature"].index("recovery")] = Enum("Option", "None", 0, [])
+    uses = {
+        "to_decompressed": ("public_key::PublicKey::to_decompressed_impl", lambda pk, ctx: [Ptr([pk], 0)]),
+        "to_compressed": ("public_key::PublicKey::to_compressed_impl", lambda pk, ctx: [Ptr([pk], 0)]),
+        "verify_hashbuf": ("ecdsa::verify::ECDSA::verify_hashbuf_impl", lambda pk, ctx: [Arr([Int(z3.BitVec(f"digest_{i}", 8), "u8") for i in range(32)]), Ptr([pk], 0), Ptr([sig], 0)]),
+        "verify_digest": ("ecdsa::verify::ECDSA::verify_digest_impl", lambda pk, ctx: [Ptr([Bytes(ctx.msg)], 0), Ptr([pk], 0), Ptr([sig], 0), Enum("SigningHash", "Sha256d", P.enums["SigningHash"]["Sha256d"])]),
+        "derive_shared_key": ("ecdsa::ecdh::ECDH::derive_shared_key_impl", lambda pk, ctx: [Ptr([ctx.sk], 0), Ptr([pk], 0)]),
+        "address_from_pubkey": ("address::P2PKHAddress::from_pubkey_impl", lambda pk, ctx: [Ptr([pk], 0)]),
+    }
+    sk = Struct("PrivateKey", [None] * len(S["PrivateKey"]))
+    sk.f[S["PrivateKey"].index("secret_key")] = Opaque("SecretKey", z3.BitVec("own_secret", 256))
+    sk.f[S["PrivateKey"].index("is_pub_key_compressed")] = Bool(True)
+    examples = {0: "00", 1: "05" + "%064x" % 5, 2: "02" + "%064x" % 5, 3: "04" + "%064x" % 1 + "%064x" % 1}
+    for use, (callsite, mkargs) in uses.items():
+        try:
+            f = env.fn(callsite)
+        except Unsupported as e:
+            qr.undecided.append(f"{use}: {e}")
+            continue
+        qr.cases += 1
+        ex = Exec(P, PK + smod + HMODELS + base)
+
+        def setup(ex, f=f, mkargs=mkargs):
+            ctx = Ctx()
+            ctx.raw, ctx.rawL = sym_bytes(ex, ctx, "pubkey_bytes", 65)
+            ctx.msg, _ = sym_bytes(ex, ctx, "message", 64)
+            ctx.sk = sk
+            # stated fact about SEC1 points: an encoding of a non-identity curve point is compressed or uncompressed
+            ctx.assumptions.append(z3.Implies(ON_CURVE(ctx.raw), z3.Or(KIND(ctx.raw) == 2, KIND(ctx.raw) == 3)))
+            ctx.assumptions.append(z3.ULE(KIND(ctx.raw), 3))
+            ctx.f, ctx.mkargs = f, mkargs
+            ex._ctx = ctx
+            return "__pubkey_use__", [], ctx
+        orig = ex.call_fn
+
+        def call_fn(name_, args, ex=ex, orig=orig):
+            if name_ != "__pubkey_use__":
+                return orig(name_, args)
+            ctx = ex._ctx
+            r = orig(f_from, [Ptr([Bytes(ctx.raw)], 0)])
+            if r.variant != "Ok":
+                return r
+            return orig(ctx.f, ctx.mkargs(r.f[0], ctx))
+        ex.call_fn = call_fn
+        try:
+            results = ex.explore(setup)
+        except Unsupported as e:
+            qr.undecided.append(f"{use}: {e}")
+            continue
+        seen = set()
+        for r in results:
+            qr.paths += 1
+            if r.kind != "panic":
+                continue
+            key = r.msg.split(" @")[0][:70]
+            if key in seen:
+                continue
+            st = {}
+            from . import seqeq as SE
+            rr = SE.check_sat(list(r.pc), [], st)
+            qr.queries += st.get("queries", 0)
+            if rr == z3.unknown:
+                qr.undecided.append(f"{use}: solver unknown on a panic path")
+            if rr != z3.sat:
+                continue
+            seen.add(key)
+            # which kind of encoding does the path need?
+            kind = None
+            for k in (2, 3, 0, 1):
+                if SE.check_sat(list(r.pc), [KIND(r.ctx.raw) == k], {}) == z3.sat:
+                    kind = k
+                    break
+            op = {"op": "decode", "kind": "pubkey_use", "hex": examples.get(kind, examples[2])}
+            nat = native_decode(op)
+            item = {"message": f"PublicKey::from_bytes accepts an encoding that is not a curve point ({[n for n, d in KINDS if d == kind]}); {use} on the accepted key panics: {key}", "request": {"tx": {"version": 1, "locktime": 0, "inputs": [], "outputs": []}, "ops": [op]},
+                    "op_index": 0, "expected": "Ok or Err (no panic)", "native": nat}
+            if any(("panic" in v or "abort" in v) for v in nat.values()):
+                qr.violations.append(item)
+            else:
+                qr.undecided.append(f"{use}: panic path '{key}' not reproduced natively with {op['hex'][:20]}.. -> {json.dumps(nat)[:160]}")
+        finish(qr, ex)
+    qr.samples.append({"obligation": qr.name, "uses": list(uses)})
+    return qr
